@@ -268,6 +268,11 @@ func c14(r *core.Run) {
 	if len(segs) > 0 {
 		r.Sample(map[string]any{"history": segs[0].Meta, "trace": core.SegTrace(segs[0])})
 	}
+	segSelfTest(r, "durable", "DurableTrace", "", segs, []core.Corruption{
+		{"an event in the reopened log that nobody appended", core.InsertIntoArray(`"e":"open"`, "log", "424242")},
+		{"the payload came back altered", core.ReplaceFirst(`"e":"open"`, `"payloadok":true`, `"payloadok":false`)},
+		{"the second open saw another log", core.InsertIntoArray(`"e":"reopen"`, "log", "424242")},
+	})
 	r.ValidateSegments("c14", "DurableTrace", "", segs, func(rej core.SegReject) *core.Segment {
 		var ev struct {
 			E string `json:"e"`
